@@ -4,7 +4,10 @@ import common, zoo as zoolib, filelevel
 from common import Pair, proof_stage, rebuild_tools, build_pqh, build_zoo, Lock, TRUSTED_BASE
 
 MODULE = "PQ.Props.C06"
-THEOREMS = []
+THEOREMS = ["PQ.C06." + t for t in (
+    "empty_write_inert", "empty_write_inert_file", "empty_write_inert_batches", "chain_is_chunks", "chain_shape", "chain_page_count",
+    "chain_columns", "state_is_stateOf", "footerT_eq", "rowgroups_refine_batches", "sink_calls_shape", "sink_calls_history",
+    "pending_at_close_dropped", "pending_at_close_dropped_file", "offsets_truthful", "offsets_contiguous")]
 
 
 def histories(chk, z, thorough):
